@@ -77,7 +77,12 @@ impl<T: Qcow2IoOps> Qcow2Dev<T> {
     pub(crate) async fn call_fsync(&self, offset: u64, len: usize, flags: u32) -> Qcow2Result<()> {
         log::trace!("fsync off {:x} len {} flags {}", offset, len, flags);
         let res = self.file.fsync(offset, len, flags).await;
-        self.barrier_failed.store(res.is_err(), Ordering::Relaxed);
+        if res.is_err() {
+            self.barrier_failed.store(true, Ordering::Relaxed);
+        } else if offset == 0 && len == usize::MAX {
+            // only a barrier over the whole file makes up for a failed one
+            self.barrier_failed.store(false, Ordering::Relaxed);
+        }
         res
     }
 
